@@ -210,4 +210,47 @@ theorem no_hash_below_missing_file :
     (hashes md5 false chainBps [gen, middle, consumer]).map Option.isSome = [true, false, false]
     ∧ (hashes md5 true chainBps [gen, middle, consumer]).map Option.isSome = [true, false, false] := by decide
 
+/-! ### a reference spelling inside the text that replaced another reference (fuzzy hash, known finding)
+
+The references are replaced in the arguments one after the other, each by `re.sub` over the text as it is by
+then.  The fuzzy replacement of a produced file `stage0.N/F:output` is `file:fuzzy#<hash of N>#F:output` — it
+ends in `F:output`.  When the producer is itself called `F` and the consumer also names `F:output` (the
+standard output of the producer), the second substitution rewrites the inside of the first replacement: the
+fuzzy hash of the consumer depends on the producer being called like the file it writes.  With any two other
+names the hashes are equal. -/
+
+def namedComp (name : S) (exe args : String) (refs : List Ref) : Comp :=
+  { name := name, stage := 0, location := [], mtime := 0, replica := none, exe := exe.toList,
+    args := args.toList, refs := refs, backend := .loc }
+
+def namedProducer (n : S) : Comp := namedComp n "exe2" "input" []
+
+def namedConsumer (n : S) : Comp :=
+  { namedComp "sim3".toList "/bin/cat" ""
+      [⟨"stage0.".toList ++ n ++ ":ref".toList, n ++ ":ref".toList, "ref".toList, [], .prodDir 0⟩,
+       ⟨"stage0.".toList ++ n ++ "/x:output".toList, n ++ "/x:output".toList, "output".toList, "x".toList,
+         .prodFile 0 (some "xx".toList)⟩,
+       ⟨"stage0.".toList ++ n ++ ":output".toList, n ++ ":output".toList, "output".toList, [],
+         .prodFile 0 (some [])⟩] with
+    args := "@".toList ++ n ++ ":ref ".toList ++ n ++ ":output) a,b=stage0.".toList ++ n ++ "/x:output -l".toList }
+
+def namedBps (n : S) : Blueprints := [((0, n), "exe2".toList), ((0, "sim3".toList), "/bin/cat".toList)]
+
+def hashOfConsumer (fuzzy : Bool) (n : S) : Option S :=
+  getH (hashes md5 fuzzy (namedBps n) [namedProducer n, namedConsumer n]) 1
+
+set_option maxRecDepth 4000 in
+theorem fuzzy_hash_other_names_equal :
+    hashOfConsumer true "merge".toList = hashOfConsumer true "calc".toList
+    ∧ (hashOfConsumer true "merge".toList).isSome = true := by decide
+
+set_option maxRecDepth 4000 in
+theorem fuzzy_hash_depends_on_producer_named_like_its_file :
+    hashOfConsumer true "x".toList ≠ hashOfConsumer true "merge".toList := by decide
+
+set_option maxRecDepth 4000 in
+/-- the strong hashes are not affected -/
+theorem strong_hash_of_producer_named_like_its_file :
+    hashOfConsumer false "x".toList = hashOfConsumer false "merge".toList := by decide
+
 end St4sd.C16.Witness
